@@ -10,4 +10,5 @@ MCInit ==
   /\ iter = 0 /\ sc = NTry /\ ss = 0
   /\ pcount = 0 /\ premain = 0 /\ pgood = FALSE /\ doPoll = FALSE
   /\ first = TRUE /\ npolls = 0
+  /\ nfEff = Reserve(fc) /\ budgetEff = Budget - Reserve(fc) /\ nfDone = 0
 =============================================================================
